@@ -35,12 +35,24 @@ def _validate_group(ctx, evs, path, label, gi):
             kind = "crash" if ev["status"] != "ok" else "?"
         elif ev["e"] == "quiesce":
             kind = "leak"
+        elif ev["e"] == "lsan":
+            kind = "libc-leak"
         elif ev["e"] == "free":
             kind = "bad-free"
         elif ev["e"] == "end":
             kind = "inconsistent" if (ev["consistent"] != 1 or ev["preserved"] != 1) else "fails-without-refusal"
         else:
             kind = ev["e"]
+        if kind == "libc-leak":
+            # the call in which the refusal happened is the one that left memory of the C library behind
+            s0 = max([x for x in range(i) if chunk[x]["e"] == "child"] or [-1]) + 1
+            cur = "?"
+            for e in chunk[s0:i]:
+                if e["e"] == "begin":
+                    cur = e["f"]
+                elif e["e"] in ("alloc", "realloc") and e["ok"] == 0:
+                    f = cur
+                    break
         if kind == "leak":
             livef, cur = {}, "?"
             s0 = max([x for x in range(i) if chunk[x]["e"] == "child"] or [-1]) + 1
@@ -105,7 +117,8 @@ def run(ctx):
                 tdir = ctx.path("tmp_%s_%s" % (variant.replace("+", "_"), prog))
                 os.makedirs(tdir, exist_ok=True)
                 tp = ctx.path("a_%s_%s.ndjson" % (variant.replace("+", "_"), prog))
-                rc, out, to = run_driver([exe, "run", prog, tp, tdir, prefix], timeout=600)
+                rc, out, to = run_driver([exe, "run", prog, tp, tdir, prefix], timeout=600,
+                                         env={"ASAN_OPTIONS": "detect_leaks=1:leak_check_at_exit=0:abort_on_error=1:handle_abort=0:handle_segv=0"})
                 if rc != 0 or to:
                     raise Machinery("drv_alloc %s failed rc=%s %s" % (prog, rc, out[-300:]))
                 m = re.search(r"allocations=(\d+)", out)
